@@ -566,6 +566,40 @@ func TestC15(t *testing.T) {
 			complete = false
 		}
 	}
+	// result-space patterns: operand pairs constructed so that the RESULT of the operation (and hence the un-reduced
+	// intermediate result + modulus) is a limb-boundary pattern: y = b*R/x for Mul, y = b - x for Add, y = x - b for Sub
+	for i := range B {
+		if !sharded(i) || s.Failed() || s.Aborted() {
+			continue
+		}
+		ok := s.Guard(func() {
+			bRaw := hx.FrRaw(&B[i])
+			for t := 0; t < 6; t++ {
+				xr := hx.Expand(uint64(hx.Seed()), "c15res", i*8+t)
+				xr.Mod(xr, ref.R)
+				if xr.Sign() == 0 {
+					xr.SetInt64(3)
+				}
+				x := hx.FrSetRaw(xr)
+				yMul := new(big.Int).Mul(bRaw, bigR256)
+				yMul.Mul(yMul, new(big.Int).ModInverse(xr, ref.R)).Mod(yMul, ref.R)
+				ys := []fr.Element{hx.FrSetRaw(yMul), hx.FrSetRaw(ref.FrSub(bRaw, xr)), hx.FrSetRaw(ref.FrSub(xr, bRaw))}
+				for yi, y := range ys {
+					for _, op := range c15BinCheap {
+						evals++
+						if err := evalBin(op, x, y, (t+yi)%3); err != nil {
+							fail(c15Case{Op: op.name, X: rawHex(&x), Y: rawHex(&y), Alias: (t + yi) % 3}, err)
+							return
+						}
+					}
+				}
+				nt++
+			}
+		})
+		if !ok || s.Failed() {
+			complete = false
+		}
+	}
 	// batch inversion over windows of the boundary set with zeros at chosen positions
 	for i := 0; i < nb; i += 7 {
 		if !sharded(i/7) || s.Failed() || s.Aborted() {
@@ -591,6 +625,6 @@ func TestC15(t *testing.T) {
 	s.Rec.NTEnum(nt)
 	s.Rec.LabelN("boundary_pairs_full_cross_product", 0)
 	s.Rec.Extra("exhaustive", complete && !s.Failed())
-	s.Rec.Extra("exhaustive_subdomain", fmt.Sprintf("in EACH build configuration: full cross product of the %d limb-boundary elements for Add/Sub/Mul (+generic), Butterfly, Cmp, conversions; the same patterns in value space: full cross product for Cmp/Equal/ordering/conversions/Butterfly; every boundary element (both spaces) for all unary operations, Sqrt/Legendre; mulByConstant for all constants", nb))
+	s.Rec.Extra("exhaustive_subdomain", fmt.Sprintf("in EACH build configuration: full cross product of the %d limb-boundary elements for Add/Sub/Mul (+generic), Butterfly, Cmp, conversions; the same patterns in value space: full cross product for Cmp/Equal/ordering/conversions/Butterfly; every boundary element (both spaces) for all unary operations, Sqrt/Legendre; mulByConstant for all constants; 6 constructed operand pairs per boundary pattern whose Mul / Add / Sub RESULT is that pattern", nb))
 	c15Part.Run(s, hx.PerShard(hx.Pick(200000, 5000000)))
 }
